@@ -29,6 +29,7 @@ import (
 	"github.com/google/martian/v3/trafficshape"
 
 	"verif/harness/internal/core"
+	"verif/harness/internal/golib"
 )
 
 const ioTimeout = 3 * time.Second
@@ -571,6 +572,9 @@ func listen() net.Listener {
 }
 
 func (e *Ex) Do(op string) core.Result {
+	if o, ok := golib.Do(op); ok {
+		return core.Result{Impl: o}
+	}
 	toks := strings.Fields(op)
 	switch toks[0] {
 	case "conn":
